@@ -150,7 +150,7 @@ AcceptRet(r, res) == AcceptRetW(r, res, TRUE)
 \* cleanup is still running).  CleanupBeforeEnd / NoStepAfterEnd fail on such traces (C02).
 AcceptAbort(r, res) == res.kind = "raised" /\ AcceptRetW(r, res, FALSE)
 
-SigintSend == /\ AllowSigint /\ phase[1] = "running" /\ ~sigint
+SigintSend == /\ AllowSigint /\ phase[1] \in {"running", "closing", "closed"} /\ ~sigint
               /\ sigint' = TRUE
               /\ UNCHANGED <<phase, guard, pst, starts, endhow, cleanleft, adoptret, shut, result, xst, h>>
 \* shutdown() may be called after accept() has ended, and again after it has returned: it then
